@@ -97,71 +97,67 @@ def isOp (t : String) : Bool :=
 
 def showE (e : PyErr) : String := "error:" ++ toString e
 
+def parseSuOp? (op : String) : Option (SuOp GRat) :=
+  if op == "ir" then some .getIR
+  else if op.startsWith "sw:" then some (.setSwitched (op == "sw:1"))
+  else if op.startsWith "pl:" then
+    let a := (op.drop 3).toString
+    if a == "none" then some (.setPathloss none) else (parseG? a).map (fun s => .setPathloss (some s))
+  else if op.startsWith "tx:" then (parseSig? (op.drop 3).toString).map .tx
+  else if op.startsWith "fx:" then
+    match (op.drop 3).toString.splitOn ":" with
+    | [f, s, x] => do
+        let fft ← f.toNat?; let sel ← parseSel? s; let x ← parseSig? x
+        pure (.fx x fft sel)
+    | _ => none
+  else none
+
 /-- run SuChannel ops (a TdlChannel is a SuChannel that never gets a path loss) -/
 def runSu (su : Setup) : Su GRat → List String → List String
   | _, [] => []
-  | c, op :: rest =>
-    if op == "ir" then
-      match c.lastIR with
-      | .ok ir => showIR su.ant ir :: runSu su c rest
+  | c, tok :: rest =>
+    match parseSuOp? tok with
+    | none => ["bad-op"]
+    | some op =>
+      match c.step (procS su.seed) fftS op with
       | .error e => [showE e]
-    else if op.startsWith "sw:" then
-      runSu su { c with tdl := { c.tdl with switched := op == "sw:1" } } rest |>.cons "ok"
-    else if op.startsWith "pl:" then
-      let a := (op.drop 3).toString
-      if a == "none" then (runSu su { c with pl := none } rest).cons "ok"
-      else match parseG? a with
-        | some s => (runSu su { c with pl := some s } rest).cons "ok"
-        | none => ["bad-op"]
-    else if op.startsWith "tx:" then
-      match parseSig? (op.drop 3).toString with
-      | none => ["bad-op"]
-      | some x => match c.corrupt (procS su.seed) x with
-        | .ok (c', y) => ("y=" ++ showSig y) :: runSu su c' rest
-        | .error e => [showE e]
-    else if op.startsWith "fx:" then
-      match (op.drop 3).toString.splitOn ":" with
-      | [f, s, x] => match f.toNat?, parseSel? s, parseSig? x with
-        | some fft, some sel, some x => match c.corruptFreq (procS su.seed) fftS x fft sel with
-          | .ok (c', y) => ("y=" ++ showSig y) :: runSu su c' rest
-          | .error e => [showE e]
-        | _, _, _ => ["bad-op"]
-      | _ => ["bad-op"]
-    else ["bad-op"]
+      | .ok (c', .y y) => ("y=" ++ showSig y) :: runSu su c' rest
+      | .ok (c', .ir r) => showIR su.ant r :: runSu su c' rest
+      | .ok (c', .unit) => "ok" :: runSu su c' rest
 
 def parseMuSig? (s : String) : Option (List (List (List GRat))) := (s.splitOn "|").mapM parseSig?
 
 def showMuOut (y : List (List (List GRat))) : String := "y=" ++ showList showSig y "|"
 
+def parseMuOp? (op : String) : Option (MuOp GRat) :=
+  if op.startsWith "sw:" then some (.setSwitched (op == "sw:1"))
+  else if op.startsWith "pl:" then (parseSig? (op.drop 3).toString).map .setPathloss
+  else if op.startsWith "tx:" then (parseMuSig? (op.drop 3).toString).map .tx
+  else if op.startsWith "fx:" then
+    match (op.drop 3).toString.splitOn ":" with
+    | [f, s, x] => do
+        let fft ← f.toNat?; let sel ← parseSel? s; let x ← parseMuSig? x
+        pure (.fx x fft sel)
+    | _ => none
+  else none
+
 def runMu (su : Setup) : Mu GRat → List String → List String
   | _, [] => []
-  | c, op :: rest =>
-    if op == "ir" then
-      match (List.range (c.nRx * c.nTx)).mapM (fun l => c.lastIR (l / c.nTx) (l % c.nTx)) with
-      | .ok irs => showList (showIR su.ant) irs " & " :: runMu su c rest
+  | c, tok :: rest =>
+    if tok == "ir" then
+      -- every link, row-major, through `get_last_impulse_response(rx, tx)`
+      match (List.range (c.nRx * c.nTx)).mapM (fun l => c.step (procS su.seed) fftS (.getIR (l / c.nTx) (l % c.nTx))) with
+      | .ok rs => showList (fun (r : Mu GRat × MuOut GRat) => match r.2 with
+                    | .ir i => showIR su.ant i | _ => "?") rs " & " :: runMu su c rest
       | .error e => [showE e]
-    else if op.startsWith "sw:" then (runMu su (c.setSwitched (op == "sw:1")) rest).cons "ok"
-    else if op.startsWith "pl:" then
-      match parseSig? (op.drop 3).toString with
-      | none => ["bad-op"]
-      | some m => match c.setPathloss m with
-        | .ok c' => (runMu su c' rest).cons "ok"
-        | .error e => [showE e]
-    else if op.startsWith "tx:" then
-      match parseMuSig? (op.drop 3).toString with
-      | none => ["bad-op"]
-      | some x => match c.corrupt (procS su.seed) x with
-        | .ok (c', y) => showMuOut y :: runMu su c' rest
-        | .error e => [showE e]
-    else if op.startsWith "fx:" then
-      match (op.drop 3).toString.splitOn ":" with
-      | [f, s, x] => match f.toNat?, parseSel? s, parseMuSig? x with
-        | some fft, some sel, some x => match c.corruptFreq (procS su.seed) fftS x fft sel with
-          | .ok (c', y) => showMuOut y :: runMu su c' rest
-          | .error e => [showE e]
-        | _, _, _ => ["bad-op"]
-      | _ => ["bad-op"]
-    else ["bad-op"]
+    else match parseMuOp? tok with
+    | none => ["bad-op"]
+    | some op =>
+      match c.step (procS su.seed) fftS op with
+      | .error e => [showE e]
+      | .ok (c', .y y) => showMuOut y :: runMu su c' rest
+      | .ok (c', .ir r) => showIR su.ant r :: runMu su c' rest
+      | .ok (c', .unit) => "ok" :: runMu su c' rest
 
 def showInts (l : List Int) : String := showList toString l
 
